@@ -121,7 +121,7 @@ fn gen_c05_big(seed: u64, idx: u64) -> Scenario {
     let block = *rng.pick(&[4096usize, 10_923, 16_384, 21_846, 32_767]);
     let (nfull, tail) = (1 + rng.usize_below(2), rng.usize_below(block));
     let audio = mixed_cost_audio(&mut rng, channels, bps, block, nfull, tail);
-    let mut cfg = gen::gen_config(&mut rng, &ConfigOpts { multithread: Some(true), min_max_parameter: 8 });
+    let mut cfg = gen::gen_config(&mut rng, &ConfigOpts { multithread: Some(true), min_max_parameter: 8, no_experimental: false });
     cfg.subframe_coding.qlpc.lpc_order = cfg.subframe_coding.qlpc.lpc_order.min(8);
     cfg.block_size = block;
     Scenario {
@@ -206,7 +206,7 @@ pub fn gen_c05(seed: u64, sub: &str, idx: u64) -> Scenario {
     let frames = frames.min(40_000 / (block * channels)).max(0);
     let tail = if rng.flip() { rng.usize_below(block) } else { 0 };
     let audio = mixed_cost_audio(&mut rng, channels, bps, block, frames, tail);
-    let mut cfg = gen::gen_config(&mut rng, &ConfigOpts { multithread: Some(true), min_max_parameter: 6 });
+    let mut cfg = gen::gen_config(&mut rng, &ConfigOpts { multithread: Some(true), min_max_parameter: 6, no_experimental: false });
     if rng.chance(1, 2) {
         cfg.subframe_coding.use_lpc = true;
         cfg.subframe_coding.qlpc.lpc_order = 24;
@@ -334,7 +334,7 @@ pub fn gen_c06(seed: u64, tier: Tier, sub: &str, idx: u64) -> Scenario {
     // the fault grid counts reads: F full-or-partial blocks => F reads with data
     let len = if frames == 0 { 0 } else { (frames - 1) * block + if tail == 0 { block } else { tail } };
     let audio = mixed_cost_audio(&mut rng, channels, bps, block, 0, len);
-    let mut cfg = gen::gen_config(&mut rng, &ConfigOpts { multithread: Some(true), min_max_parameter: 6 });
+    let mut cfg = gen::gen_config(&mut rng, &ConfigOpts { multithread: Some(true), min_max_parameter: 6, no_experimental: false });
     cfg.block_size = block;
     Scenario {
         audio: Arc::new(audio),
